@@ -90,4 +90,8 @@ MUTANTS = [
     M('sema:top:annotations-dropped', 'sema', ['C06'], 'syntax_to_semantic', 'let anstmt = asg::AnnotatedStmt::new(stmt, context.take_annotations()).to_stmt();', 'let anstmt = asg::AnnotatedStmt::new(stmt, Vec::new()).to_stmt();'),
     M('sema:top:include-desync', 'sema', ['C03'], 'syntax_to_semantic', 'if file_path == "stdgates.inc" {', 'if file_path == "stdgates.inc" || file_path == "qelib1.inc" {'),
     M('sema:top:stmt-prepended', 'sema', ['C06'], 'Program::insert_stmt', 'self.stmts.push(stmt);', 'self.stmts.insert(0, stmt);'),
+    # ---- SHORT intersperse_trivia
+    M('short:intersperse:error-inside-token', 'short', ['C12'], "LexedStr<'_>::intersperse_trivia", 'let text_pos = builder.lexed.text_start(builder.pos);', 'let text_pos = builder.lexed.text_start(builder.pos) / 2;'),
+    M('short:intersperse:token-count-ignored', 'short', ['C02'], "LexedStr<'_>::intersperse_trivia", '} => builder.token(kind, n_raw_tokens),', '} => builder.token(kind, 1),'),
+    M('short:intersperse:no-final-exit-state', 'short', ['C01', 'C02'], "LexedStr<'_>::intersperse_trivia", 'Step::Exit => builder.exit(),', 'Step::Exit => (),'),
 ]
